@@ -264,7 +264,10 @@ def run(rep, tier, rng):
     base.proofs(rep, 'Properties.C16', THEOREMS, deps=['Proofs.FactsOk'])
     t2.run(rep, ['vi', 'ck'], tier)
     n = 500 if tier == 'quick' else 6000
-    base.merge_t3(rep, rng, ['ops'], n, 'ops', 2, 4, extra_cases=[("{l: [1, 2, 3]}", '{z: !prev "l[0]"}')])
+    base.merge_t3(rep, rng, ['ops'], n, 'ops', 2, 4, extra_cases=[("{l: [1, 2, 3]}", '{z: !prev "l[0]"}'),
+                                                                       # !clear inside a list whose older counterpart protects an element: the protected element is re-indexed onto the path the alias had
+                                                                       ("{b: [{r: 1, c: 2}, !force {b: 0}]}", "{b: [!clear ]}"),
+                                                                       ("{a: 1, r: {a: false, r: [3, 7]}, b: [{r: 1, c: 2}, !force {c: !weak true, b: 0, a: y}]}", "{c: 2, r: {c: [y, '', true], a: [1], r: !extend []}}", "{a: {a: !weak {a: 3}, b: [!force 0, 3, y]}, r: y, b: [!clear ]}")])
     scen = []
     for _ in range(700 if tier == 'quick' else 10000):
         c = gen_case(rng)
